@@ -38,19 +38,40 @@ def run_mutant(mu, lane_dir):
     tree = os.path.join(scratch, "tree")
     try:
         copy_tree(tree)
-        p = os.path.join(tree, mu["file"])
-        s = open(p).read()
-        if mu["old"] not in s:
-            return mu["id"], "stale", "pattern not found in %s" % mu["file"]
-        idx = -1
-        for _ in range(mu["nth"]):
-            idx = s.index(mu["old"], idx + 1)
-        s = s[:idx] + mu["new"] + s[idx + len(mu["old"]):]
-        open(p, "w").write(s)
+        if mu.get("edits"):
+            for ed in mu["edits"]:
+                p = os.path.join(tree, ed[0])
+                s = open(p).read()
+                if ed[1] not in s:
+                    return mu["id"], "stale", "pattern not found in %s: %s" % (ed[0], ed[1][:40])
+                s = s.replace(ed[1], ed[2]) if (len(ed) > 3 and ed[3]) else s.replace(ed[1], ed[2], 1)
+                open(p, "w").write(s)
+        else:
+            p = os.path.join(tree, mu["file"])
+            s = open(p).read()
+            if mu["old"] not in s:
+                return mu["id"], "stale", "pattern not found in %s" % mu["file"]
+            idx = -1
+            for _ in range(mu["nth"]):
+                idx = s.index(mu["old"], idx + 1)
+            s = s[:idx] + mu["new"] + s[idx + len(mu["old"]):]
+            open(p, "w").write(s)
         env = dict(os.environ)
         env["AX_REPO"] = tree
         env["AX_CACHE"] = os.path.join(lane_dir, "cache")
         env["AX_EVIDENCE_DIR"] = os.path.join(scratch, "evidence")
+        if mu["rule"] == "SILENT":
+            alarms = []
+            for prop in mu["prop"].split(","):
+                r = subprocess.run([sys.executable, "-m", "axcheck_py", prop], cwd=VERIF, env=env, capture_output=True, text=True)
+                out = r.stdout + r.stderr
+                if r.returncode == 2:
+                    if "does not build" in out or "extraction failed" in out:
+                        return mu["id"], "nocompile", out[-300:]
+                    return mu["id"], "broken", out[-600:]
+                if r.returncode != 0:
+                    alarms += ["%s:%s" % (prop, x) for x in re.findall(r"rule=(\S+ instance=\S+)", out)][:3]
+            return (mu["id"], "FALSE-ALARM", alarms) if alarms else (mu["id"], "silent-ok", "")
         r = subprocess.run([sys.executable, "-m", "axcheck_py", mu["prop"]], cwd=VERIF, env=env, capture_output=True, text=True)
         out = r.stdout + r.stderr
         if r.returncode == 2:
@@ -72,8 +93,12 @@ def main():
     ap.add_argument("--only", default="")
     ap.add_argument("--props", default="")
     ap.add_argument("--lanes", type=int, default=4)
+    ap.add_argument("--benign", action="store_true", help="only the behaviour-preserving variants")
     a = ap.parse_args()
-    sel = [mu for mu in M if (not a.only or mu["id"] in a.only.split(",")) and (not a.props or mu["prop"] in a.props.split(","))]
+    sel = [mu for mu in M if (not a.only or mu["id"] in a.only.split(",")) and
+           (not a.props or set(mu["prop"].split(",")) & set(a.props.split(",")))]
+    if a.benign:
+        sel = [mu for mu in sel if mu["rule"] == "SILENT"]
     base = tempfile.mkdtemp(prefix="axselftest-")
     results = {}
     try:
@@ -88,7 +113,7 @@ def main():
             for mu in chunks[i]:
                 out.append(run_mutant(mu, lanes[i]))
                 print("%-22s %-4s %-12s %s" % (out[-1][0], [x for x in sel if x["id"] == out[-1][0]][0]["prop"], out[-1][1],
-                                             out[-1][2] if out[-1][1] != "caught" else ""), flush=True)
+                                             out[-1][2] if out[-1][1] not in ("caught", "silent-ok") else ""), flush=True)
             return out
         with concurrent.futures.ThreadPoolExecutor(a.lanes) as ex:
             for res in ex.map(work, range(a.lanes)):
@@ -102,7 +127,7 @@ def main():
     print("summary:", json.dumps(summary))
     with open(os.path.join(HERE, "last_run.json"), "w") as fh:
         json.dump({k: [v[1], v[2] if isinstance(v[2], list) else str(v[2])[:200]] for k, v in sorted(results.items())}, fh, indent=1)
-    return 0 if not any(r[1] in ("MISSED", "broken") for r in results.values()) else 1
+    return 0 if not any(r[1] in ("MISSED", "broken", "FALSE-ALARM") for r in results.values()) else 1
 
 
 if __name__ == "__main__":
